@@ -233,7 +233,7 @@ static void set_body(Rng &r, const GenFeatures &f, MsgSpec &m, bool allow_close)
         return;
     }
     m.framing = FR_CL;
-    HeaderSpec cl; cl.name = r.chance(1, 4) ? "content-length" : "Content-Length"; cl.value = strfmt("%zu", m.body.size());
+    HeaderSpec cl; cl.name = r.chance(1, 4) ? "content-length" : "Content-Length"; cl.value = r.chance(1, 10) ? strfmt("%0*zu", (int) r.range(2, 6), m.body.size()) : strfmt("%zu", m.body.size());   // 1*DIGIT: leading zeros are legal
     m.headers.insert(m.headers.begin() + (long) r.below(m.headers.size() + 1), cl);
 }
 
@@ -248,7 +248,7 @@ Script random_script(Rng &r, const GenFeatures &f, int n, int id_base) {
         q.version = (f.http10 && r.chance(1, 6)) ? "HTTP/1.0" : "HTTP/1.1";
         std::string host = "h" + rand_token(r, 1, 6) + ".example";
         for (auto &c : host) c = (char) tolower((unsigned char) c);
-        if (f.wild_path && r.chance(1, 10)) {
+        if (f.wild_host && r.chance(1, 10)) {
             // a bracketed host literal whose length sits on the usual buffer-size edges (scenarios without ground truth only)
             static const int EDGE[] = {0, 1, 2, 15, 16, 17, 38, 39, 40, 44, 45, 46, 47, 48, 63, 64, 65, 127, 128, 129, 255, 256, 257};
             int L = r.chance(1, 4) ? (int) r.range(0, 80) : EDGE[r.below(sizeof EDGE / sizeof *EDGE)];
@@ -272,7 +272,8 @@ Script random_script(Rng &r, const GenFeatures &f, int n, int id_base) {
                 Bytes name = rand_token(r, 1, 6), val = r.chance(1, 6) ? Bytes() : rand_value(r, 1, 10, true);
                 qparams.push_back(std::make_pair(name, val));
                 if (j) query += "&";
-                query += pct_encode(r, name, true) + "=" + pct_encode(r, val, true);
+                // (a piece without '=' is a name with an empty value: the reference rule of C15)
+                query += pct_encode(r, name, true) + ((val.empty() && r.chance(1, 3)) ? std::string() : "=" + pct_encode(r, val, true));
             }
         }
         bool absolute = f.absolute_uri && r.chance(1, 5);
